@@ -197,6 +197,11 @@ func (s *SpaceDelimitedArray) UnmarshalJSON(data []byte) error {
 	if err := json.Unmarshal(data, &str); err != nil {
 		return err
 	}
+	if str == "" {
+		// null or an empty string: no elements (not one empty element)
+		*s = nil
+		return nil
+	}
 	*s = strings.Split(str, " ")
 	return nil
 }
